@@ -431,6 +431,31 @@ func C14(c *fw.Ctx) {
 			}
 		}
 	}
+	// an operator application with probe operands directly as the condition of if / while / for (no call,
+	// grouping or ! around it): operands still evaluated once each, left to right, for every value pair
+	for _, op := range append(allOps, logOps...) {
+		for _, a := range vals {
+			for _, b := range vals {
+				if !c.Mine() {
+					continue
+				}
+				mk := func() *model.N {
+					tag = 0
+					if model.BinLevel[op] == 0 {
+						return model.Log(op, P(a.Mk()), P(b.Mk()))
+					}
+					return model.Bin(op, P(a.Mk()), P(b.Mk()))
+				}
+				TT := func(s string) *model.N { return model.Print(model.Str(s)) }
+				prog := append(c14Prelude(),
+					model.If(mk(), TT("then"), TT("else")),
+					model.While(mk(), model.Block(TT("while-body"), model.Break())),
+					model.For(nil, mk(), nil, model.Block(TT("for-body"), model.Break())),
+					TT("end"))
+				judgeAllSchedules(c, prog, "condition-root|"+op)
+			}
+		}
+	}
 	// truthiness contexts
 	T := func(s string) *model.N { return model.Print(model.Str(s)) }
 	for _, a := range vals {
